@@ -51,6 +51,9 @@ def classify(pid, fails, events, res, matchers):
             else:
                 left.append(c)
         if left:
+            cls = "%s/%s: %s" % (e["op"], e.get("name", e.get("algo", e.get("variant", e.get("kind", "")))), ",".join(left))
+            vc = res.notes.setdefault("violation_classes", {})
+            vc[cls] = vc.get(cls, 0) + 1
             desc = "op=%s clauses=%s hashseed=%s src=%s" % (e["op"], ",".join(left), e.get("hashseed"),
                                                             json.dumps(e.get("src"), sort_keys=True)[:400])
             res.violation(desc, {"clauses": left, "event": e})
